@@ -1,5 +1,320 @@
 import SemVerif.Spec.Preds
 import SemVerif.Inventory
-/-! # Property C12 — theorems (under construction) -/
+import SemVerif.Lemmas.StmtSteps
+import SemVerif.Lemmas.Frames
+/-!
+# Property C12 — internal value names are unique per function and stable at every use
+
+For every program and every function: the internal names introduced by `FunctionArg` and
+`LetBinding` instructions of the function's stack are pairwise distinct, and every read, field
+read and assignment carries a value record that an earlier declaration of the same stack
+introduced.  Invariant: all live blocks hold the same registry of internal names, it contains
+every declared name, a new declaration takes a name outside it (probe lemma), and every value in
+a live block's table was introduced by a declaration of the root stack.
+-/
 namespace SemVerif
+
+theorem declValues_append (l : List Instr) (i : Instr) :
+    declValues (l ++ [i]) = declValues l ++ (match i.declares with | some v => [v] | none => []) := by
+  unfold declValues
+  rw [List.filterMap_append]
+  cases h : i.declares <;> simp [List.filterMap, h]
+
+theorem badUses_append (l : List Instr) (i : Instr) : ∀ (d : List Value) (p : Nat),
+    badUses (l ++ [i]) d p = badUses l d p ++
+      (match i.usesValue with
+       | some v => if ((declValues l).reverse ++ d).contains v then [] else [p + l.length]
+       | none => []) := by
+  induction l with
+  | nil =>
+    intro d p
+    simp [badUses, declValues]
+    cases i.usesValue <;> simp
+  | cons x xs ih =>
+    intro d p
+    simp only [List.cons_append, badUses]
+    rw [ih]
+    have hd : (declValues (x :: xs)).reverse ++ d =
+        (declValues xs).reverse ++ (match x.declares with | some v => v :: d | none => d) := by
+      unfold declValues
+      cases hx : x.declares <;> simp [List.filterMap, hx]
+    rw [hd]
+    simp only [List.append_assoc, List.length_cons]
+    congr 2
+    cases i.usesValue with
+    | none => rfl
+    | some v => simp only; congr 2; omega
+
+structure NameInv (s : St) : Prop where
+  sync : ∀ b ∈ s.inner, b.innerNames = s.root.innerNames
+  reg : ∀ v ∈ declValues s.root.context, v.innerName ∈ s.root.innerNames
+  nodup : (declNames s.root.context).Nodup
+  vis : ∀ b ∈ s.frames, ∀ x ∈ b.values, x.2 ∈ declValues s.root.context
+  uses : badUses s.root.context [] 0 = []
+
+theorem nameInv_init : NameInv St.init := by
+  refine ⟨by simp [St.init], ?_, ?_, ?_, ?_⟩ <;> simp [St.init, Block.fresh, declValues, declNames, badUses, St.frames]
+
+/-- pushing an instruction that declares nothing and uses only visible values -/
+theorem nameInv_push {s : St} (h : NameInv s) (i : Instr) (hd : i.declares = none)
+    (hu : ∀ v, i.usesValue = some v → ∃ n, s.lookupValue n = some v) : NameInv (s.push i) := by
+  have hctx : (s.push i).root.context = s.root.context ++ [i] := rfl
+  have hdv : declValues (s.push i).root.context = declValues s.root.context := by
+    rw [hctx, declValues_append, hd]; simp
+  refine ⟨?_, ?_, ?_, ?_, ?_⟩
+  · intro b hb
+    simp [St.push, St.mapFrames] at hb ⊢
+    obtain ⟨b', hb', rfl⟩ := hb
+    exact h.sync b' hb'
+  · rw [hdv]; exact h.reg
+  · unfold declNames; rw [hdv]; exact h.nodup
+  · intro b hb x hx
+    rw [hdv]
+    unfold St.push at hb
+    rw [frames_mapFrames] at hb
+    simp at hb
+    obtain ⟨b', hb', rfl⟩ := hb
+    exact h.vis b' hb' x hx
+  · rw [hctx, badUses_append, h.uses]
+    cases hv : i.usesValue with
+    | none => rfl
+    | some v =>
+      obtain ⟨n, hn⟩ := hu v hv
+      obtain ⟨b, hb, hm⟩ := lookupValue_mem s n v hn
+      have := h.vis b hb (n, v) hm
+      simp [this]
+
+theorem nameInv_fields {s s' : St}
+    (hroot : s'.root.context = s.root.context ∧ s'.root.innerNames = s.root.innerNames)
+    (hinner : ∀ b ∈ s'.inner, ∃ b' ∈ s.frames, b.innerNames = b'.innerNames)
+    (hvals : ∀ b ∈ s'.frames, ∀ x ∈ b.values, ∃ b' ∈ s.frames, x ∈ b'.values)
+    (h : NameInv s) : NameInv s' := by
+  refine ⟨?_, ?_, ?_, ?_, ?_⟩
+  · intro b hb
+    obtain ⟨b', hb', he⟩ := hinner b hb
+    rw [he, hroot.2]
+    rcases mem_frames.mp hb' with hi | rfl
+    · exact h.sync b' hi
+    · rfl
+  · rw [hroot.1, hroot.2]; exact h.reg
+  · rw [hroot.1]; exact h.nodup
+  · intro b hb x hx
+    rw [hroot.1]
+    obtain ⟨b', hb', hx'⟩ := hvals b hb x hx
+    exact h.vis b' hb' x hx'
+  · rw [hroot.1]; exact h.uses
+
+/-- operations that map every live block with a function that keeps stack, values and registry -/
+theorem nameInv_mapFrames {s : St} (f : Block → Block)
+    (hf : ∀ b, (f b).context = b.context ∧ (f b).values = b.values ∧ (f b).innerNames = b.innerNames)
+    (h : NameInv s) : NameInv (s.mapFrames f) := by
+  refine nameInv_fields (s := s) ⟨(hf _).1, (hf _).2.2⟩ ?_ ?_ h
+  · intro b hb
+    simp [St.mapFrames] at hb
+    obtain ⟨b', hb', rfl⟩ := hb
+    exact ⟨b', mem_frames.mpr (Or.inl hb'), (hf b').2.2⟩
+  · intro b hb x hx
+    rw [frames_mapFrames] at hb
+    simp at hb
+    obtain ⟨b', hb', rfl⟩ := hb
+    exact ⟨b', hb', by rw [← (hf b').2.1]; exact hx⟩
+
+theorem innerUsed_false_root {s : St} {n : Name} (h : s.innerUsed n = false) : n ∉ s.root.innerNames := by
+  intro hm
+  unfold St.innerUsed at h
+  have : (s.frames.any fun b => b.innerNames.contains n) = true := by
+    rw [List.any_eq_true]
+    exact ⟨s.root, by simp [St.frames], by simpa using hm⟩
+  rw [this] at h; cases h
+
+theorem nameInv_same {s s' : St} (hi : s'.inner = s.inner) (hr : s'.root = s.root) (h : NameInv s) : NameInv s' := by
+  refine nameInv_fields (s := s) ⟨by rw [hr], by rw [hr]⟩ ?_ ?_ h
+  · intro b hb; rw [hi] at hb; exact ⟨b, mem_frames.mpr (Or.inl hb), rfl⟩
+  · intro b hb x hx
+    have : s'.frames = s.frames := by simp [St.frames, hi, hr]
+    rw [this] at hb; exact ⟨b, hb, hx⟩
+
+theorem lookupValue_mapFrames (f : Block → Block) (hf : ∀ b, (f b).values = b.values) (s : St) (n : Name) :
+    (s.mapFrames f).lookupValue n = s.lookupValue n := by
+  unfold St.lookupValue
+  rw [frames_mapFrames, List.findSome?_map]
+  congr 1
+  funext b
+  simp [Function.comp, hf]
+
+theorem nameInv_declare {s : St} (h : NameInv s) (n : Name) (v : Value) (i : Instr) (hi : i.declares = some v)
+    (hu : i.usesValue = none) (hfresh : s.innerUsed v.innerName = false) :
+    NameInv (((s.insertValue n v).registerInner v.innerName).push i) := by
+  have hnotin := innerUsed_false_root hfresh
+  have hctx : (((s.insertValue n v).registerInner v.innerName).push i).root.context = s.root.context ++ [i] := by
+    unfold St.push St.registerInner St.mapFrames St.insertValue St.mapCur
+    cases s.inner <;> rfl
+  have hnames : (((s.insertValue n v).registerInner v.innerName).push i).root.innerNames = setInsert v.innerName s.root.innerNames := by
+    unfold St.push St.registerInner St.mapFrames St.insertValue St.mapCur
+    cases s.inner <;> rfl
+  have hdv : declValues (s.root.context ++ [i]) = declValues s.root.context ++ [v] := by
+    rw [declValues_append, hi]
+  refine ⟨?_, ?_, ?_, ?_, ?_⟩
+  · intro b hb
+    rw [hnames]
+    unfold St.push St.registerInner St.mapFrames St.insertValue St.mapCur at hb
+    cases hin : s.inner with
+    | nil => rw [hin] at hb; simp at hb
+    | cons b0 rest =>
+      rw [hin] at hb
+      simp at hb
+      rcases hb with rfl | ⟨b', hb', rfl⟩
+      · simp [h.sync b0 (by simp [hin])]
+      · simp [h.sync b' (by simp [hin, hb'])]
+  · rw [hctx, hdv, hnames]
+    intro w hw
+    simp at hw
+    rw [mem_setInsert]
+    rcases hw with hw | rfl
+    · exact Or.inr (h.reg w hw)
+    · exact Or.inl rfl
+  · rw [hctx]
+    unfold declNames
+    rw [hdv]
+    simp only [List.map_append, List.map_cons, List.map_nil]
+    rw [List.nodup_append]
+    refine ⟨h.nodup, by simp, ?_⟩
+    intro a ha b hb
+    simp at hb; subst hb
+    intro heq; subst heq
+    simp [declNames] at ha
+    obtain ⟨w, hw, hwn⟩ := ha
+    exact hnotin (hwn ▸ h.reg w hw)
+  · intro b hb x hx
+    rw [hctx, hdv]
+    have hfr : (((s.insertValue n v).registerInner v.innerName).push i).frames =
+        ((s.insertValue n v).frames.map fun b => { b with innerNames := setInsert v.innerName b.innerNames }).map
+          fun b => { b with context := b.context ++ [i] } := by
+      unfold St.push St.registerInner
+      rw [frames_mapFrames, frames_mapFrames]
+    rw [hfr] at hb
+    unfold St.insertValue at hb
+    rw [frames_mapCur] at hb
+    cases hf : s.frames with
+    | nil => exact absurd hf (frames_ne_nil s)
+    | cons b0 rest =>
+      rw [hf] at hb
+      simp at hb
+      rcases hb with rfl | ⟨b', hb', rfl⟩
+      · simp at hx
+        rcases mem_assocInsert n v _ x hx with rfl | hx'
+        · simp
+        · have := h.vis b0 (by simp [hf]) x hx'
+          simp [this]
+      · simp at hx
+        have := h.vis b' (by simp [hf, hb']) x hx
+        simp [this]
+  · rw [hctx, badUses_append, h.uses, hu]; rfl
+
+theorem nameInv_estep {s s' : St} (h : NameInv s) (st : EStep s s') : NameInv s' := by
+  cases st with
+  | incReg => exact nameInv_mapFrames _ (fun b => ⟨rfl, rfl, rfl⟩) h
+  | emit i _ hd _ hu => exact nameInv_push h i hd hu
+  | incEmit i _ hd _ hu =>
+    have h1 : NameInv s.incReg := nameInv_mapFrames _ (fun b => ⟨rfl, rfl, rfl⟩) h
+    apply nameInv_push h1 i hd
+    intro v hv
+    obtain ⟨n, hn⟩ := hu v hv
+    exact ⟨n, by unfold St.incReg; dsimp only; rw [lookupValue_mapFrames (fun b => { b with reg := s.cur.reg + 1 }) (fun b => rfl)]; exact hn⟩
+  | addErr k v l o => exact nameInv_same (s := s) rfl rfl h
+  | setPanic site =>
+    unfold St.setPanic
+    cases s.panic
+    · exact nameInv_same (s := s) rfl rfl h
+    · exact h
+  | declare n v i hi _ _ hu hfresh => exact nameInv_declare h n v i hi hu hfresh
+
+theorem nameInv_step {s s' : St} (h : NameInv s) (st : Step s s') : NameInv s' := by
+  cases st with
+  | e he => exact nameInv_estep h he
+  | enter =>
+    refine nameInv_fields (s := s) ⟨rfl, rfl⟩ ?_ ?_ h
+    · intro b hb
+      simp [St.enter] at hb
+      rcases hb with rfl | hb
+      · exact ⟨s.cur, cur_mem_frames s, rfl⟩
+      · exact ⟨b, mem_frames.mpr (Or.inl hb), rfl⟩
+    · intro b hb x hx
+      rw [frames_enter] at hb
+      simp at hb
+      rcases hb with rfl | hb
+      · simp [Block.child] at hx
+      · exact ⟨b, by simpa [St.frames] using hb, hx⟩
+  | leave =>
+    have hr := root_leave_fields s
+    refine nameInv_fields (s := s) ⟨hr.1, hr.2.2.1⟩ ?_ ?_ h
+    · intro b hb
+      obtain ⟨b', hb', _, _, hn, _⟩ := inner_leave s b hb
+      exact ⟨b', mem_frames.mpr (Or.inl hb'), hn⟩
+    · intro b hb x hx
+      obtain ⟨b', hb', _, hv, _⟩ := frames_leave s b hb
+      exact ⟨b', hb', hv ▸ hx⟩
+  | regLabel l _ => exact nameInv_mapFrames _ (fun b => ⟨rfl, rfl, rfl⟩) h
+  | ctl i _ hd hu => exact nameInv_push h i hd (by intro v hv; rw [hu] at hv; cases hv)
+  | ctlVia k i _ hd hu =>
+    unfold St.pushVia
+    refine nameInv_push ?_ i hd (by intro v hv; rw [hu] at hv; cases hv)
+    refine nameInv_fields (s := s) ?_ ?_ ?_ h
+    · unfold St.mapCur; cases s.inner <;> exact ⟨rfl, rfl⟩
+    · intro b hb
+      unfold St.mapCur at hb
+      cases hi : s.inner with
+      | nil => rw [hi] at hb; simp at hb
+      | cons b0 rest =>
+        rw [hi] at hb; simp at hb
+        rcases hb with rfl | hb
+        · exact ⟨b0, mem_frames.mpr (Or.inl (by simp [hi])), rfl⟩
+        · exact ⟨b, mem_frames.mpr (Or.inl (by simp [hi, hb])), rfl⟩
+    · intro b hb x hx
+      rw [frames_mapCur] at hb
+      cases hf : s.frames with
+      | nil => exact absurd hf (frames_ne_nil s)
+      | cons b0 rest =>
+        rw [hf] at hb; simp at hb
+        rcases hb with rfl | hb
+        · exact ⟨b0, by simp, hx⟩
+        · exact ⟨b, by simp [hb], hx⟩
+  | setReturn => exact nameInv_mapFrames _ (fun b => ⟨rfl, rfl, rfl⟩) h
+
+theorem nameInv_steps {s s' : St} (h : NameInv s) (st : Steps s s') : NameInv s' := by
+  induction st with
+  | refl => exact h
+  | tail _ st ih => exact nameInv_step ih st
+
+theorem nodupB_of_nodup {α : Type} [DecidableEq α] : ∀ (l : List α), l.Nodup → nodupB l = true
+  | [], _ => rfl
+  | a :: rest, h => by
+    rw [List.nodup_cons] at h
+    unfold nodupB
+    simp [h.1, nodupB_of_nodup rest h.2]
+
+/-- C12 for one function -/
+theorem C12_function (g : Globals) (f : FnDecl) :
+    nodupB (declNames (functionBody g f).root.context) = true ∧ badUses (functionBody g f).root.context [] 0 = [] := by
+  have h := nameInv_steps nameInv_init (steps_functionBody g f)
+  exact ⟨nodupB_of_nodup _ h.nodup, h.uses⟩
+
+/-- **C12** — for every program the output predicate holds on the model's result: no internal
+name is declared twice in a function, and every read / field read / assignment carries a record
+introduced by an earlier declaration of the same function -/
+theorem C12 (p : Program) : P_C12 (run p) = [] := by
+  unfold P_C12 run
+  rw [List.flatMap_eq_nil_iff]
+  intro x hx
+  obtain ⟨b, i⟩ := x
+  have hb := List.mem_zipIdx hx
+  have : b ∈ List.map (fun s => s.root) (List.map (functionBody (pass2 p (pass1 p GState.init)).globals) p.fns) := by
+    have := hb.2.2
+    simp only at this
+    rw [this]; exact List.getElem_mem _
+  simp only [List.mem_map] at this
+  obtain ⟨s, ⟨f, _, rfl⟩, rfl⟩ := this
+  obtain ⟨h1, h2⟩ := C12_function (pass2 p (pass1 p GState.init)).globals f
+  simp [h1, h2]
+
 end SemVerif
